@@ -195,6 +195,23 @@ struct KPtr {
         return i;
     }
 };
+// pointer to const: the non-modifying algorithms must not need mutable access
+struct KCPtr {
+    static constexpr char const* name = "const_ptr";
+    static constexpr bool wrapper     = false;
+    template <typename T>
+    using it = T const*;
+    template <typename T>
+    static T const* make(T* p, vi::Desc<T>*)
+    {
+        return p;
+    }
+    template <typename T>
+    static T const* raw(T const* i)
+    {
+        return i;
+    }
+};
 #define C06_KIND(NAME, TMPL, STR)                                                                                      \
     struct NAME {                                                                                                      \
         static constexpr char const* name = STR;                                                                       \
